@@ -385,10 +385,10 @@ func runRace(t *rapid.T) {
 						w.tty.Feed([]byte([]string{
 							"k\x1b[A",
 							fmt.Sprintf("\x1b[<0;%d;%dM\x1b[<0;%d;%dm", st.A*3, st.B*2, st.A*3, st.B*2), // SGR click
-							"\x1b[M " + string([]byte{byte(32 + st.A*3), byte(32 + st.B*2)}),                 // X11 press
-							"\x1b[200~p\x1b[201~", // bracketed paste
-							"\x1b[I\x1b[O",        // focus
-							"\x1b",                // lone ESC: the escape timer decides
+							"\x1b[M " + string([]byte{byte(32 + st.A*3), byte(32 + st.B*2)}),            // X11 press
+							"\x1b[200~p\x1b[201~",     // bracketed paste
+							"\x1b[I\x1b[O",            // focus
+							"\x1b",                    // lone ESC: the escape timer decides
 							"\x1b]52;c;Y2xpcA==\x07é", // OSC 52 reply, UTF-8
 						}[(st.A+st.B)%7]))
 					}
